@@ -327,6 +327,10 @@ class FoldSwap(Simple, Strategy[WC, W]):
     def __repr__(self):
         return "FoldSwap()"
 
+    @classmethod
+    def from_dict(cls, d):
+        return cls()
+
 
 class ExpandUnlessFoldable(Expand):
     def decomposition_function(self, c):
